@@ -15,7 +15,7 @@ BUILTINS = {'len', 'abs', 'min', 'max', 'range', 'slice', 'isinstance', 'int', '
             'sum', 'set', 'dict', 'frozenset', 'id', 'type', 'hash', 'getattr', 'repr', 'print', 'zip_longest', 'chain'}
 EXC_NAMES = {'RuntimeError', 'KeyError', 'IndexError', 'ValueError', 'TypeError', 'NotImplementedError',
              'StopIteration', 'AttributeError', 'Exception', 'ZeroDivisionError', 'LookupError'}
-SPECFNS = {'ub', 'kind_is', 'np_result_type', 'W', 'frozen', 'same_array', 'dtype_class', 'implies', 'iff', 'forall', 'exists', 'forall_in', 'exists_in', 'old', 'cond', 's_start', 's_stop',
+SPECFNS = {'ufe', 'ub', 'kind_is', 'np_result_type', 'W', 'frozen', 'same_array', 'dtype_class', 'implies', 'iff', 'forall', 'exists', 'forall_in', 'exists_in', 'old', 'cond', 's_start', 's_stop',
            's_step', 'nth', 'in_slice', 'length', 'at', 'is_none', 'some', 'slice_len_le', 'true', 'false',
            'at_or', 'R_len', 'sum_to'}
 
@@ -252,6 +252,9 @@ class ModuleEnv:
                     raise Unsupported(f'mutation of possibly aliased list {root.id}')
                 eng.assign(st, node.func.value, list_append(base, args[0]), None)
                 return VNone()
+            if name == 'clear' and not args:
+                eng.assign(st, node.func.value, VList(0, base.sort, base.arrs), None)
+                return VNone()
             if name == 'pop' and len(args) == 0:
                 d = eng.decide(st, base.length == 0)
                 if d is None:
@@ -452,9 +455,18 @@ class ModuleEnv:
                     raise Unsupported(f'{key}: argument {n} missing and no default known')
                 bind[n] = eng.spec_value(d, State())
         psorts = {k: parse_sort(v) for k, v in c.get('params', {}).items()}
+        loose_failed = False
         for n in names:
             if n in psorts:
-                bind[n] = coerce(bind[n], psorts[n])
+                try:
+                    bind[n] = coerce(bind[n], psorts[n])
+                except Unsupported:
+                    if not c.get('loose'):
+                        raise
+                    loose_failed = True      # argument of another type: the result is unconstrained (sound over-approximation)
+        if loose_failed:
+            rs0 = c.get('result')
+            return fresh_value(parse_sort(rs0), 'loose') if rs0 and rs0 != 'none' else VUnknown(f'{key}: ill-typed argument')
         if recv is not None:
             bind['self'] = recv
         gh = eng.c.get('call_ghosts', {}).get(key, {})
@@ -598,6 +610,12 @@ class ModuleEnv:
         vals = [eng.ev(x, st) for x in a]
         if name == 'is_none':
             return VBool(eng.identical(vals[0], VNone(), st))
+        if name == 'ufe':       # ufe('name', e1, e2, ...): uninterpreted function over opaque elements, returning an element
+            from .sorts import ELEM
+            fname = vals[0].py
+            xs = [coerce(v, 'elem').t for v in vals[1:]]
+            f = z3.Function('ufe_' + fname, *([ELEM] * (len(xs) + 1)))
+            return VU(f(*xs), 'elem')
         if name == 'ub':        # ub('name', i, j, ...): uninterpreted Boolean function of integers (cell predicates)
             fname = vals[0].py
             xs = [eng.need_int(v, st, node).t for v in vals[1:]]
